@@ -274,17 +274,25 @@ def f64ofInt (i : Int) : Nat := (Float.ofInt i).toBits.toNat
 /-- `(int64_t) d` for doubles inside the int64 range (truncation) -/
 def f64toInt (bits : Nat) : Int := (Float.ofBits (UInt64.ofNat bits)).toInt64.toInt
 
-/-- `_jbl_increment_node_data` -/
+def inInt64 (i : Int) : Bool := decide (-(2 ^ 63 : Int) ≤ i) && decide (i < 2 ^ 63)
+
+/-- the double lies in [-2^63, 2^63) (false for NaN and the infinities): `(int64_t) d` is defined -/
+def f64inI64 (bits : Nat) : Bool :=
+  let f := Float.ofBits (UInt64.ofNat bits)
+  f >= -9223372036854775808.0 && f < 9223372036854775808.0
+
+/-- `_jbl_increment_node_data` (after the fix: an increment that leaves the int64 range is refused, the target keeps its value) -/
 def increment (target value : Node) : Node × Err :=
   match value with
   | .int v =>
     (match target with
-     | .int t => (.int (Conv.wrap64 (t + v)), .ok)
+     | .int t => if inInt64 (t + v) then (.int (Conv.wrap64 (t + v)), .ok) else (target, .patchInvalidValue)
      | .f64 t => (.f64 (f64add t (f64ofInt v)), .ok)
      | _ => (target, .patchTargetInvalid))
   | .f64 v =>
     (match target with
-     | .int t => (.int (Conv.wrap64 (t + f64toInt v)), .ok)
+     | .int t =>
+       if f64inI64 v && inInt64 (t + f64toInt v) then (.int (Conv.wrap64 (t + f64toInt v)), .ok) else (target, .patchInvalidValue)
      | .f64 t => (.f64 (f64add t v), .ok)
      | _ => (target, .patchTargetInvalid))
   | _ => (target, .patchInvalidValue)
